@@ -997,13 +997,22 @@ def lk1(F, R):
                             cf = F.closure(clos[2])
                             vals = [cf.term_of_rvalue(s["rv"], bb) for bb, ii, s in cf.stmts() if s["k"] == "Assign" and s["p"]["l"] == 0 and not s["p"]["proj"]]
                             okc = len(vals) == 1 and vals[0][0] == "agg" and vals[0][2].endswith("Error::LockError")
+                if not okc:
+                    # written out: `match self.data.try_borrow_mut() { Ok(d) => d, Err(_) => return Err(Error::LockError) }` -
+                    # from the Err edge of the call's own result no return is reached but through Err(LockError)
+                    from .fsmodel import err_returns as _errs
+                    lock_errs = [x[0] for x in _errs(fn) if x[2] == "LockError"]
+                    eds = [(gb, gi) for (gb, gi, g) in all_guards(fn) if g.kind == "variant" and g.variant == "Err" and strip_refs(g.term)[0] == "call" and strip_refs(g.term)[3] == b]
+                    okc = bool(eds) and bool(lock_errs) and all(not any(fn.term(rb)["k"] == "Return" for rb in fn.reach([fn.succ(gb)[gi][0]], cut_blocks=lock_errs)) for (gb, gi) in eds)
                 R.require(okc, fn, "try_borrow->LockError", "try_borrow failure is not mapped to Error::LockError", fn.loc(b))
 
 
 @rule("LK2", ["C08"], floor=22,
       doc="in every Result-returning VolumeManager method the successful lock acquisition dominates every non-logging call except delegations to other lock-taking VolumeManager/wrapper methods")
 def lk2(F, R):
-    lock_ok = lambda g: g.kind == "variant" and g.variant == "Continue" and (lambda x: x is not None and x[0] == "call" and (x[1].endswith("RefCell::try_borrow") or x[1].endswith("RefCell::try_borrow_mut")))(try_inner(g.term))
+    _is_tb = lambda x: x is not None and x[0] == "call" and x[1] and (x[1].endswith("RefCell::try_borrow") or x[1].endswith("RefCell::try_borrow_mut"))
+    # `try_borrow_mut().map_err(..)?` went on, or the call's own result was matched and is Ok
+    lock_ok = lambda g: g.kind == "variant" and ((g.variant == "Continue" and _is_tb(try_inner(g.term))) or (g.variant == "Ok" and _is_tb(strip_refs(g.term))))
     DELEG_OK = ("VolumeManager::", "RawVolume::to_volume", "RawDirectory::to_directory", "RawFile::to_file", "Directory::iterate_dir", "core::mem::drop", "core::mem::forget",
                 "Try::branch", "FromResidual::from_residual", "Result::map_err", "RefCell::try_borrow", "RefCell::try_borrow_mut", "Directory", "Volume::", "File::")
     for fn in F.fns:
